@@ -32,6 +32,13 @@ PROPS = {
     "C06": {"count": {"quick": 3000, "thorough": 60000},
             "trusted": SOCK_TRUSTED + ["parameter: QRegExp and the middleware verdicts (theorems hold for every matcher and every verdict assignment)"],
             "rule": "as C05 with 40% refusing middleware; refusers write a 403 marked with their id so the wire shows who answered"},
+    "C07": {"count": {"quick": 1500, "thorough": 30000},
+            "trusted": SOCK_TRUSTED + ["modelled, not verified: QDir::setPath/absoluteFilePath/cleanPath/relativeFilePath, QUrl::fromPercentEncoding, kernel path resolution without symbolic links; parameter: the file system tree (theorems hold for every finite tree)",
+                                        "the served tree is fixed (.work/fstree, created by tools/check.py); symbolic links are outside the property's domain"],
+            "rule": "exhaustive request paths of <= L segments over {name, sub, .., ., empty, %2e%2e, %252e%252e, sibling, outside file, %2f, missing} with one or two leading slashes, then random paths of <= 6 segments incl. absolute prefixes, NUL, encoded names, several spellings of the document root; real FilesystemHandler on SimTcp; status, body and disclosed names compared"},
+    "C08": {"count": {"quick": 1200, "thorough": 25000},
+            "trusted": SOCK_TRUSTED + ["parameters: file contents, MIME names, listing HTML (oracles); modelled: header split at ',', Range string constructor (C16), copier (C14) with the default 64 KiB block"],
+            "rule": "files of size 0, 12, 31, 40, 65536, 70000 (across the 64 KiB copy block) x Range headers with bounds around 0, size, 65536, 2^31, malformed / multi-range / other units / case variants, and directory listings; whole response compared"},
     "C09": {"count": {"quick": 4000, "thorough": 100000},
             "trusted": SOCK_TRUSTED + ["modelled, not verified: QByteArray::fromBase64 (Qt's lenient decoder), QByteArray::split(' '), QMap lookup; credentials are compared as UTF-8 bytes (the harness registers well-formed NUL-free text)"],
             "rule": "credential tables of <= 4 users (prefixes / case variants of each other, empty password, ':' in password) x Authorization values: valid, near misses (scheme case, two spaces, tab, trailing space, missing colon, stripped padding, junk inside the token, NUL / BOM / invalid UTF-8 in the payload, other users' passwords), repeated headers, random bytes; through BasicAuthMiddleware attached to a Handler on a Socket over SimTcp"},
@@ -62,6 +69,10 @@ LEVEL = {
          "QRegExp is a parameter; sub-handler patterns are assumed start-anchored as documented for the prefix-removal clause; QString::arg modelled."),
  "C06": ("Theorems: the middleware consulted are exactly the chain's up to and including the first refusal, in attachment order; after a refusal no redirect, sub-handler or processing action exists and the wire is the refuser's response; tie: as C05 with scripted refusing middleware.",
          "as C05."),
+ "C07": ("Theorems over the path algebra (cleanPath/relativeFilePath models, kernel-style resolution on an arbitrary symlink-free tree): a served location always has the document root as a prefix; plain relative paths to existing entries are served; tie: exhaustive short paths and random long ones (double encoding, absolute prefixes, root spellings) through the real handler on a real temporary tree.",
+         "Qt path functions are modelled and validated by the same runs; the file system is a parameter."),
+ "C08": ("Theorems: composition of the Range theorems (C16), the copier theorem (C14) and the serialiser theorem (C03): 200 with the whole file or 206 with exactly the first satisfiable range, consistent Content-Length/Content-Range; tie: files across the 64 KiB block boundary x Range header variants through the real handler.",
+         "setBufferSize is not reachable through the handler: small block sizes are covered by C14's copier runs."),
  "C09": ("Theorems: the middleware's verdict equals the property's reading (Basic in any case, one space, base64 of user:password cut at the first colon, exact registered pair) for every header value and table; base64 round trip; every refusal is one 401 with the realm challenge; tie: near-miss and random Authorization values through the real middleware.",
          "fromBase64 modelled (lenient decoder); QString conversion of credentials is covered by the round-trip guard in the repaired code."),
  "C14": ("Theorems over the copier state machine for every source, block size >= 1 and range: left to run it writes exactly src[from..min to (len-1)] (termination of the block loop included), one completion after the last write; failures give error then one completion; after stop() nothing more is written or signalled; sequential sources in arbitrary pieces; tie: exhaustive small sources x blocks x ranges x stop points on the real QIODeviceCopier with instrumented devices.",
